@@ -392,7 +392,7 @@ func mmapCall(mm recordio.ReadAtI, m rioModel, name string) string {
 
 func (c c18) Run(ctx *core.Ctx) error {
 	ctx.CaseTimeout = 5 * time.Minute
-	ctx.Ev.Rule = "every interleaving within the preemption bound, each executed in a -race build whose scheduler hand-offs add no happens-before edges: (a) the C05 SimpleDB scenarios; (b) 2-3 goroutines x 1-2 calls from {Get, Contains, ScanRange drained, ScanStartingAt drained} on one table reader (default loader), every ordered pair of calls; (c) the same for {ReadNextAt, SeekNext} on one memory-mapped RecordIO reader; (b) also with the per-read hash check enabled and on legacy fixture tables, (c) also on the version 1/2/3 fixture files; in (b),(c) every statement of the reader/index/iterator/mmap files is a scheduling point and the buffer pool is a deterministic LIFO pool (maximal reuse). Oracle: no race report, no panic, every call returns what it returns when executed alone (linearizable history for the database). distinct = (scenario, outcome class); non-trivial = executions with at least one preemption"
+	ctx.Ev.Rule = "every interleaving within the preemption bound, each executed in a -race build whose scheduler hand-offs add no happens-before edges: (a) the C05 SimpleDB scenarios (quick: bound 1, S4 0; thorough: C05's quick bounds); (b) 2-3 goroutines x 1-2 calls from {Get, Contains, ScanRange drained, ScanStartingAt drained} on one table reader (default loader), every ordered pair of calls; (c) the same for {ReadNextAt, SeekNext} on one memory-mapped RecordIO reader; (b) also with the per-read hash check enabled and on legacy fixture tables, (c) also on the version 1/2/3 fixture files; in (b),(c) every statement of the reader/index/iterator/mmap files is a scheduling point and the buffer pool is a deterministic LIFO pool (maximal reuse). Oracle: no race report, no panic, every call returns what it returns when executed alone (linearizable history for the database). distinct = (scenario, outcome class); non-trivial = executions with at least one preemption"
 	ctx.Ev.Assume = []string{"the race detector keeps a bounded access history per memory word (it can miss, never invent, a race); scenarios are short",
 		"GOMAXPROCS=1: the detector's verdict depends on the order of synchronisation operations, which is what the schedule enumeration varies"}
 	// (a) SimpleDB scenarios, this binary (simpledb rewritten, -race)
@@ -409,6 +409,13 @@ func (c c18) Run(ctx *core.Ctx) error {
 		}
 		if ctx.Tier != "thorough" && s.name == "S4-compaction-under-read-and-flush" {
 			s.quickBound = 0
+		}
+		if ctx.Tier == "thorough" {
+			// the race build is 5-10x slower than C05's: thorough here = C05's quick bounds (2; S4 and the 3-thread S2r: 1)
+			s.thoroughBound = s.quickBound
+			if s.quickBound < 0 {
+				s.thoroughBound = 1
+			}
 		}
 		scns = append(scns, s)
 	}
